@@ -272,6 +272,30 @@ impl Blk {
                     });
                 }
             }
+            if cleaned_def.term.rhs.mnemonic == ExpressionType::LOAD {
+                if let Some(output) = cleaned_def.term.lhs.clone() {
+                    if output.address.is_some() {
+                        // The loaded value is written to an implicit RAM location:
+                        // load into a temporary register and store its value afterwards.
+                        let temp_register = Variable::new_virtual("$load_temp_out", output.size);
+                        cleaned_def.term.lhs = Some(temp_register.clone());
+                        refactored_defs.push(cleaned_def);
+                        refactored_defs.push(Term {
+                            tid: def.tid.clone().with_id_suffix("_store"),
+                            term: Def {
+                                lhs: Some(output),
+                                rhs: Expression {
+                                    mnemonic: ExpressionType::COPY,
+                                    input0: Some(temp_register),
+                                    input1: None,
+                                    input2: None,
+                                },
+                            },
+                        });
+                        continue;
+                    }
+                }
+            }
             refactored_defs.push(cleaned_def);
         }
 
